@@ -53,6 +53,8 @@ type Profile struct {
 	ReopenPct     int  // percent chance per run of containing Reopen ops (on-disk only)
 	ExpPct        int  // percent of writes carrying an expiry
 	ShortExp      bool // expiries of 1-40 simulated seconds (C14) instead of far-away ones
+	ViewBodies    bool // bodies rich in the properties the view / query families look at
+	JSONOnly      bool // no raw bodies (queries that address body properties need JSON)
 }
 
 var profiles = map[string]Profile{
@@ -72,7 +74,13 @@ var profiles = map[string]Profile{
 		"WriteUpdateWithXattrs": 6, "DeleteWithXattrs": 4, "WriteSubDoc": 1, "Backfill": 1}, MinOps: 6, MaxOps: 30, MaxKeys: 2, MaxColl: 1, SmallDoc: 25, OnDiskPct: 10, ExpPct: 30},
 	"C08": {Name: "C08", W: baseWeights(4).with("Purge", 1), MinOps: 6, MaxOps: 30, MaxKeys: 3, MaxColl: 2, SmallDoc: 10, OnDiskPct: 10, ExpPct: 30},
 	"C09": {Name: "C09", W: baseWeights(3).with("Backfill", 14, "Purge", 1), MinOps: 6, MaxOps: 26, MaxKeys: 4, MaxColl: 2, OnDiskPct: 15, ExpPct: 30},
-	"C11": {Name: "C11", W: baseWeights(4).with("Purge", 2, "Backfill", 1, "Touch", 10, "GetAndTouchRaw", 6), MinOps: 8, MaxOps: 30, MaxKeys: 2, MaxColl: 3, ReadAll: true, TwoBucketsPct: 50, OnDiskPct: 15, ExpPct: 40},
+	"C11": {Name: "C11", W: baseWeights(4).with("Purge", 2, "Backfill", 1, "Touch", 10, "GetAndTouchRaw", 6, "RecreateColl", 5, "PutDDoc", 3, "View", 6, "Query", 5), MinOps: 8, MaxOps: 30, MaxKeys: 2, MaxColl: 3, ReadAll: true, TwoBucketsPct: 50, OnDiskPct: 15, ExpPct: 40},
+	"C12": {Name: "C12", W: weights{"Set": 10, "SetRaw": 2, "Add": 3, "Delete": 4, "Remove": 1, "WriteCas": 4, "Update": 3, "Incr": 2, "SetXattrs": 4, "UpdateXattrs": 2,
+		"WriteWithXattrs": 4, "WriteTombstoneWithXattrs": 3, "WriteResurrectionWithXattrs": 2, "DeleteWithXattrs": 2, "WriteUpdateWithXattrs": 2, "WriteSubDoc": 2,
+		"Touch": 1, "Purge": 2, "SetWithMeta": 2, "DeleteWithMeta": 1, "PutDDoc": 5, "DelDDoc": 1, "View": 22, "Reopen": 1}, MinOps: 8, MaxOps: 30, MaxKeys: 4, MaxColl: 2, OnDiskPct: 20, ReopenPct: 50, ExpPct: 5, ViewBodies: true},
+	"C19": {Name: "C19", W: weights{"Set": 10, "Add": 3, "Delete": 4, "Remove": 1, "WriteCas": 4, "Update": 3, "Incr": 2, "SetXattrs": 4, "UpdateXattrs": 2,
+		"WriteWithXattrs": 4, "WriteTombstoneWithXattrs": 3, "WriteResurrectionWithXattrs": 2, "DeleteWithXattrs": 2, "WriteUpdateWithXattrs": 2, "WriteSubDoc": 2,
+		"Touch": 1, "Purge": 2, "Query": 20, "Reopen": 1}, MinOps: 6, MaxOps: 26, MaxKeys: 4, MaxColl: 3, OnDiskPct: 50, ReopenPct: 50, ExpPct: 5, ViewBodies: true, JSONOnly: true},
 	"C14": {Name: "C14", W: weights{"Set": 6, "SetRaw": 3, "Add": 4, "AddRaw": 2, "WriteCas": 5, "Delete": 3, "Remove": 1, "Update": 3, "Incr": 3, "Touch": 8, "GetAndTouchRaw": 4,
 		"UpdateXattrs": 4, "WriteWithXattrs": 5, "WriteResurrectionWithXattrs": 2, "WriteTombstoneWithXattrs": 2, "WriteUpdateWithXattrs": 3, "SetXattrs": 1, "SetWithMeta": 2,
 		"DeleteWithXattrs": 1, "WriteSubDoc": 1, "Advance": 14, "Reopen": 3, "Purge": 1}, MinOps: 5, MaxOps: 26, MaxKeys: 3, MaxColl: 2, OnDiskPct: 30, ReopenPct: 100, ExpPct: 75, ShortExp: true},
@@ -99,6 +107,20 @@ type gen struct {
 func (g *gen) uniq() int { g.n++; return g.n }
 
 func (g *gen) jsonBody() string {
+	if g.p.ViewBodies {
+		switch g.r.Intn(5) {
+		case 0:
+			return fmt.Sprintf(`{"v":%d}`, 1+g.r.Intn(12))
+		case 1:
+			return fmt.Sprintf(`{"s":"t%d","v":%d}`, g.r.Intn(3), 1+g.r.Intn(12))
+		case 2:
+			return fmt.Sprintf(`{"s":"t%d","v":%d,"w":[%d,%d]}`, g.r.Intn(3), 1+g.r.Intn(12), g.r.Intn(3), g.r.Intn(3))
+		case 3:
+			return fmt.Sprintf(`{"s":"t%d","u":%d}`, g.r.Intn(3), g.uniq())
+		default:
+			return fmt.Sprintf(`{"w":[%d],"x":%d}`, g.r.Intn(3), g.uniq())
+		}
+	}
 	switch g.r.Intn(4) {
 	case 0:
 		return fmt.Sprintf(`{"v":%d}`, g.uniq())
@@ -112,6 +134,9 @@ func (g *gen) jsonBody() string {
 }
 
 func (g *gen) rawBody() string {
+	if g.p.JSONOnly {
+		return g.jsonBody()
+	}
 	if g.r.Chance(50) {
 		return fmt.Sprintf("raw-%d", g.uniq())
 	}
@@ -130,6 +155,9 @@ func (g *gen) bigBody(json bool) string {
 }
 
 func (g *gen) xattrVal() string {
+	if g.p.ViewBodies && g.r.Chance(60) {
+		return fmt.Sprintf(`{"r":%d}`, 1+g.r.Intn(9))
+	}
 	switch g.r.Intn(5) {
 	case 0:
 		return fmt.Sprintf(`{"r":%d}`, g.uniq())
@@ -239,7 +267,7 @@ func (g *gen) op(kind string) Op {
 	op := Op{Kind: kind}
 	op.Key = g.keys[g.r.Intn(len(g.keys))]
 	op.Coll = g.r.Intn(g.ncoll)
-	if g.twoB && g.r.Chance(25) && kind != "Backfill" && kind != "Purge" && kind != "Reopen" && kind != "Restart" && kind != "Advance" && kind != "Clock" {
+	if g.twoB && g.r.Chance(25) && kind != "Backfill" && kind != "Purge" && kind != "Reopen" && kind != "Restart" && kind != "Advance" && kind != "Clock" && kind != "RecreateColl" && kind != "PutDDoc" && kind != "DelDDoc" && kind != "View" && kind != "Query" {
 		op.Handle, op.Coll = 9, 0
 	}
 	small := g.p.SmallDoc > 0
@@ -267,7 +295,11 @@ func (g *gen) op(kind string) Op {
 			op.Preserve = g.r.Chance(25)
 		}
 	case "WriteCas":
-		switch g.r.Intn(10) {
+		pick := g.r.Intn(10)
+		if g.p.JSONOnly && pick >= 2 && pick <= 5 {
+			pick = 6 // (no raw / appended bodies where queries address body properties)
+		}
+		switch pick {
 		case 0, 1:
 			op.WOpt = int(sgbucket.AddOnly)
 			op.Body = strp(g.jsonBody())
@@ -473,6 +505,42 @@ func (g *gen) op(kind string) Op {
 		op.Key = ""
 		op.Coll = 0
 		op.Dur = []int{1, 2, 3, 5, 8, 13, 30, 60}[g.r.Intn(8)]
+	case "PutDDoc":
+		op.Key = []string{"dd1", "dd2"}[g.r.Intn(2)]
+		op.Xattrs = map[string]string{}
+		fams := []string{"F0", "F1", "F2", "F3", "F4:_count", "F4:_sum", "F1:_count", "F4"}
+		for i := 0; i < 1+g.r.Intn(2); i++ {
+			op.Xattrs[fmt.Sprintf("v%d", i+1)] = fams[g.r.Intn(len(fams))]
+		}
+	case "DelDDoc":
+		op.Key = []string{"dd1", "dd2"}[g.r.Intn(2)]
+	case "View":
+		op.Key = []string{"dd1", "dd2"}[g.r.Intn(2)]
+		op.Path = []string{"v1", "v2"}[g.r.Intn(2)]
+		op.Body = strp(g.viewParams())
+	case "Query":
+		kinds := []string{"ids", "idbody", "idge", "num", "str", "xattr", "count"}
+		if !g.p.JSONOnly {
+			kinds = []string{"ids", "idge", "xattr", "count"} // raw bodies around: only queries that do not parse the body
+		}
+		op.Key = ""
+		op.Path = kinds[g.r.Intn(len(kinds))]
+		switch op.Path {
+		case "idge":
+			op.Body = strp(fmt.Sprintf(`{"k":"k%d"}`, 1+g.r.Intn(4)))
+		case "num":
+			op.Body = strp(fmt.Sprintf(`{"min":%d}`, g.r.Intn(12)))
+		case "str":
+			op.Body = strp(fmt.Sprintf(`{"s":"t%d"}`, g.r.Intn(3)))
+		}
+		if g.r.Chance(25) {
+			op.WOpt = 1 // hold the iterator open across a write (on-disk buckets)
+		}
+	case "RecreateColl":
+		op.Key = ""
+		if g.ncoll > 1 {
+			op.Coll = 1 + g.r.Intn(g.ncoll-1)
+		}
 	case "Clock":
 		op.Key = ""
 		op.Coll = 0
@@ -549,4 +617,69 @@ func GenE1(prop string, seed uint64) *Program {
 		}
 	}
 	return prog
+}
+
+// viewParams draws a parameter combination for a view query (as JSON).
+func (g *gen) viewParams() string {
+	key := func() string {
+		switch g.r.Intn(5) {
+		case 0:
+			return fmt.Sprintf(`"k%d"`, 1+g.r.Intn(4))
+		case 1:
+			return fmt.Sprintf(`["t%d",%d]`, g.r.Intn(3), 1+g.r.Intn(12))
+		case 2:
+			return fmt.Sprintf(`["t%d"]`, g.r.Intn(3))
+		default:
+			return fmt.Sprintf(`%d`, g.r.Intn(12))
+		}
+	}
+	parts := []string{`"stale":false`}
+	switch g.r.Intn(9) {
+	case 0:
+		parts = append(parts, `"key":`+key())
+	case 1, 2:
+		parts = append(parts, `"startkey":`+key())
+		if g.r.Bool() {
+			parts = append(parts, `"endkey":`+key())
+		}
+		if g.r.Chance(30) {
+			parts = append(parts, `"inclusive_end":false`)
+		}
+	case 3:
+		parts = append(parts, `"endkey":`+key())
+		if g.r.Chance(40) {
+			parts = append(parts, `"inclusive_end":false`)
+		}
+	case 4:
+		parts = append(parts, fmt.Sprintf(`"keys":[%s,%s]`, key(), key()))
+		return "{" + joinComma(parts) + "}"
+	}
+	if g.r.Chance(30) {
+		parts = append(parts, `"descending":true`)
+	}
+	switch g.r.Intn(6) {
+	case 0:
+		parts = append(parts, `"reduce":false`)
+		if g.r.Chance(50) {
+			parts = append(parts, fmt.Sprintf(`"limit":%d`, 1+g.r.Intn(4)))
+		}
+	case 1:
+		parts = append(parts, `"group":true`)
+	case 2:
+		parts = append(parts, `"group_level":1`)
+	case 3:
+		parts = append(parts, `"reduce":false`)
+	}
+	return "{" + joinComma(parts) + "}"
+}
+
+func joinComma(parts []string) string {
+	out := ""
+	for i, p := range parts {
+		if i > 0 {
+			out += ","
+		}
+		out += p
+	}
+	return out
 }
